@@ -144,7 +144,12 @@ func c16ModuleProject(variant int) *execSpec {
 func c16Polluter(t *zsim.Tape) *execSpec {
 	gs := c16Globals()
 	guard := "\n\n拦截异常：\n\t输出“挡住”\n"
-	switch t.Draw(11) {
+	switch t.Draw(13) {
+	case 11, 12: // every mutating method x every property of a fresh object of a library class (also via a local copy / an item)
+		m := c16Mutators[t.Draw(len(c16Mutators))]
+		args := []string{"", "：1", "：3、2", "：“x”", "：“k”、5"}[t.Draw(5)]
+		target := []string{"物 之 文", "物 之 数", "物 之 表", "物 之 典", "本", "物 之 表 # 2", "物 之 典 # “k”"}[t.Draw(7)]
+		return &execSpec{ID: "libobj:" + target + "." + m, Mode: "script", Main: fmt.Sprintf("导入《@探针》\n\n令物 = （新建探针箱）\n令本 = 物 之 文\n令结果 = 以%s（%s%s）\n输出“污染者结束”%s", target, m, args, guard)}
 	case 10: // in-place methods known to apply to a predefined value (half of the mutate share)
 		c := [][3]string{{"数值", "自增", "：2"}, {"数值", "自减", "：3"}, {"数值", "自增", "：0.5"}}[t.Draw(3)]
 		return &execSpec{ID: "mutate:" + c[0] + "." + c[1], Mode: "script", Main: fmt.Sprintf("令结果 = 以%s（%s%s）\n输出“污染者结束”%s", c[0], c[1], c[2], guard)}
@@ -185,7 +190,9 @@ func c16Polluter(t *zsim.Tape) *execSpec {
 // victim draws a program from the fixed battery that reads predefined state.
 func c16Victim(t *zsim.Tape) *execSpec {
 	gs := c16Globals()
-	switch t.Draw(10) {
+	switch t.Draw(11) {
+	case 10: // default property values of a library class
+		return &execSpec{ID: "library-object-defaults", Mode: "script", Main: "导入《@探针》\n\n令物 = （新建探针箱）\n（显示：物 之 文、物 之 数、物 之 表、物 之 典）\n输出“默认值完”\n"}
 	case 9: // a class exported by a registered library
 		return &execSpec{ID: "library-class", Mode: "script", Main: "导入《@探针》\n\n令错 = （新建探针异常）\n（显示：错 之 内容）\n输出“库类完”\n\n拦截异常：\n\t输出“库类构造失败”\n"}
 	case 0:
